@@ -21,7 +21,7 @@ def _c04_min_classes():
             if f not in ('GenEigsSolver', 'GenEigsRealShiftSolver', 'GenEigsComplexShiftSolver') and r != 'SmallestMagn':
                 m['R2/%s/%s' % (f, r)] = 30      # exterior rules, ncv < n
     m.update({'R1/float': 1000, 'R1/long double': 1000, 'R2/float': 500, 'R2/long double': 500, 'selection_verified/R3': 1000,
-              'singular_class/R1/zero_wanted': 300, 'singular_class/R3/zero_wanted': 100, 'interior_target/R3': 100,
+              'singular_class/R1/zero_wanted': 300, 'singular_class/R3/zero_wanted': 100, 'interior_target/R3': 100, 'two_sided_magnitude_target/R3': 100,
               'R2/DavidsonSymEigsSolver/LargestAlge': 100, 'R2/DavidsonSymEigsSolver/SmallestAlge': 100, 'R2/DavidsonSymEigsSolver/LargestMagn': 100,
               'R2/DavidsonSymEigsSolver/SmallestMagn': 100, 'R1/PartialSVDSolver/largest': 200, 'R2/PartialSVDSolver/largest': 200,
               'R2/LOBPCGSolver/smallest': 200})
@@ -31,7 +31,7 @@ def _c04_min_classes():
 PROPS['C04'] = dict(
     level='exploration',
     technique='rapidcheck generation of prescribed spectra (key grids spaced >= 1 % of the key spread, in the variable the rule is documented to act on) x every solver family x every supported rule x three '
-              'regimes (ncv = n exactly decidable; ncv < n exterior; ncv < n general / interior / singular); long double reference spectrum of the rounded input; multiset-of-keys oracle',
+              'regimes (ncv = n exactly decidable; ncv < n one-ended target; ncv < n general / interior / two-ended / singular); long double reference spectrum of the rounded input; multiset-of-keys oracle',
     level_text='Random search with shrinking over {SymEigsSolver, HermEigsSolver, GenEigsSolver, SymEigsShiftSolver, GenEigsRealShiftSolver, GenEigsComplexShiftSolver (user functor operators), SymGEigsSolver '
                'Cholesky / RegularInverse, SymGEigsShiftSolver ShiftInvert / Buckling / Cayley (library wrappers)} x {float, double, long double}, plus DavidsonSymEigsSolver, PartialSVDSolver and LOBPCGSolver in double. '
                'The spectrum is built in the variable the rule acts on (lambda, or nu = 1/(lambda-sigma), lambda/(lambda-sigma), (lambda+sigma)/(lambda-sigma); for the complex shift lambda is prescribed and the groups are '
@@ -39,21 +39,22 @@ PROPS['C04'] = dict(
                'general family (nev never splits a pair), a class with one exactly-zero eigenvalue, scale 1e-6..1e6, pencils (M D M^T, M M^T) with cond(M) <= 3. Symmetric A = Q D Q^T, normal A = Q blockdiag Q^T. '
                'n <= 24, 1 <= nev <= (n-1)/2, ncv = n (regime R1) or 2 nev + 1 <= ncv < n, default start vector, maxit 3000, tol 1e-10 (float: 64 eps). When the solver reports Successful: it returned nev '
                'values, every returned value is a genuine reference eigenvalue (distinct ones for distinct values; complex shift: the right root of the back-transformation), and the multiset of their keys equals '
-               'the multiset of the keys of the nev eigenvalues the rule names (BothEnds: ceil(nev/2) largest + floor(nev/2) smallest). R1 and R2 are asserted strictly; in R3 (general family, interior target, '
-               'or a wanted exactly-zero eigenvalue, with ncv < n) a wrong set made only of genuine distinct eigenvalues is the known finding D13.',
+               'the multiset of the keys of the nev eigenvalues the rule names (BothEnds: ceil(nev/2) largest + floor(nev/2) smallest). R1 (ncv = n) and R2 (ncv < n, one-ended targets of the symmetric / Hermitian / generalized families) are asserted strictly; '
+               'in R3 (ncv < n and: general family, or SmallestMagn / LargestMagn on a sign-indefinite spectrum, or a wanted exactly-zero eigenvalue of a singular operator) a wrong set made only of genuine '
+               'distinct eigenvalues is the known finding D13, anything else is a violation.',
     level_note='The reference spectrum is that of the rounded input (Eigen SelfAdjointEigenSolver / EigenSolver / GeneralizedSelfAdjointEigenSolver in long double) and must reproduce the prescription; the oracle is '
                'skipped (and counted) if the tolerance is not below a quarter of the smallest key gap. PartialSVDSolver has no info(): success = all requested values converged. Davidson is run on strictly diagonally '
                'dominant definite matrices only, LOBPCG without B / preconditioner / constraints on spectra whose k smallest eigenvalues are well separated (their property texts restrict them; C15 / C17 cover the rest).',
     units=_c04_units(),
     runs=dict(
-        quick=[dict(unit='c04p_d', cases=6000, workers=2), dict(unit='c04g_d', cases=6000, workers=2), dict(unit='c04c_d', cases=6000, workers=1),
-               dict(unit='c04p_f', cases=5000, workers=1), dict(unit='c04g_f', cases=5000, workers=1),
-               dict(unit='c04p_l', cases=5000, workers=1), dict(unit='c04g_l', cases=5000, workers=1)],
+        quick=[dict(unit='c04p_d', cases=10000, workers=2), dict(unit='c04g_d', cases=10000, workers=2), dict(unit='c04c_d', cases=8000, workers=1),
+               dict(unit='c04p_f', cases=8000, workers=1), dict(unit='c04g_f', cases=8000, workers=1),
+               dict(unit='c04p_l', cases=8000, workers=1), dict(unit='c04g_l', cases=8000, workers=1)],
         thorough=[dict(unit='c04p_d', cases=20000, workers=4, set=dict(nmax=40)), dict(unit='c04g_d', cases=20000, workers=3, set=dict(nmax=40)), dict(unit='c04c_d', cases=20000, workers=2, set=dict(nmax=40)),
                   dict(unit='c04p_f', cases=20000, workers=2, set=dict(nmax=40)), dict(unit='c04g_f', cases=20000, workers=1, set=dict(nmax=40)),
                   dict(unit='c04p_l', cases=20000, workers=2, set=dict(nmax=40)), dict(unit='c04g_l', cases=20000, workers=2, set=dict(nmax=40))],
     ),
-    min=dict(quick=dict(cases=40000, nontrivial=30000, classes=_c04_min_classes()),
+    min=dict(quick=dict(cases=80000, nontrivial=60000, classes=_c04_min_classes()),
              thorough=dict(cases=300000, nontrivial=200000, classes=_c04_min_classes())),
     rule='case = (family, rule, regime, n, singular class, content seed, scale, shift, spectrum shape (interval / sign kind), cond(M) and B scale for pencils, nev among the sizes that do not split a key group, ncv). '
          'Non-trivial = the solver reported Successful (so the oracle applied) with nev < n; distinct = 64-bit hash of the draw log. Classes R1|R2|R3/<family>/<rule> count cases whose oracle was applied and passed.',
